@@ -34,7 +34,8 @@ def validate_time_x(x, times=None, n_features=None, cast_scalar=False):
     ----------
     x : array-like
         The training instances for which the density function will be estimated.
-        Shape must be (n_samples, n_features).
+        Shape must be (n_samples, n_features). If 'times' is provided, a shape of
+        (n_samples,) is treated as a single feature.
 
     times : array-like, optional
         An array encoding the time points associated with each cell/row in 'x'.
@@ -61,7 +62,13 @@ def validate_time_x(x, times=None, n_features=None, cast_scalar=False):
         of features.
     """
 
-    x = validate_array(x, "x", ndim=2)
+    if times is None:
+        x = validate_array(x, "x", ndim=2)
+    else:
+        # with the time points given separately a 1-D 'x' is a single feature
+        x = validate_array(x, "x", ndim=(1, 2))
+        if x.ndim == 1:
+            x = x.reshape(-1, 1)
     if cast_scalar and times is not None:
         if not isscalar(times):
             # array-likes (lists, column vectors, one-element arrays of any rank)
